@@ -230,9 +230,32 @@ Proof. exact inactive_or_expired_step. Qed.
 Print Assumptions C19_inactive_or_expired_rejected.
 
 Theorem C19_active_means :
-  forall r now, is_active r now = true <-> r_status r = StActive /\ (r_exp r = 0 \/ now <= r_exp r).
+  forall r now, is_active r now = true <-> r_status r = StActive /\ (r_exp r = 0%Z \/ (Z.of_N now <= r_exp r)%Z).
 Proof. exact is_active_spec. Qed.
 Print Assumptions C19_active_means.
+
+(* (5') expiry instants are int64: ONLY 0 means "never expires".  Any other instant before the lookup time — a NEGATIVE one included —
+   is expired (so it is rejected by (5), selected by the sweep and its name becomes claimable by (4)).  A negative instant is
+   reachable from the wire: the create adapter stores now + ttl in int64, which wraps for an over-large ttl. *)
+Theorem C19_past_expiry_is_expired :
+  forall r now, r_exp r <> 0%Z -> (r_exp r < Z.of_N now)%Z -> is_expired r now = true /\ is_active r now = false.
+Proof. exact past_expiry_is_expired. Qed.
+Print Assumptions C19_past_expiry_is_expired.
+
+Theorem C19_negative_expiry_is_expired :
+  forall r now, (r_exp r < 0)%Z -> is_expired r now = true /\ is_active r now = false.
+Proof. exact negative_expiry_is_expired. Qed.
+Print Assumptions C19_negative_expiry_is_expired.
+
+Theorem C19_adapter_expiry_wraps_negative :
+  forall now ttl, (Z.of_N now < two63)%Z -> (0 <= ttl < two63)%Z -> (two63 <= Z.of_N now + ttl)%Z -> (adapter_expiry now ttl < 0)%Z.
+Proof. exact adapter_expiry_wraps. Qed.
+Print Assumptions C19_adapter_expiry_wraps_negative.
+
+Theorem C19_adapter_expiry_in_range :
+  forall now ttl, (0 <= Z.of_N now + ttl < two63)%Z -> adapter_expiry now ttl = (Z.of_N now + ttl)%Z.
+Proof. exact adapter_expiry_in_range. Qed.
+Print Assumptions C19_adapter_expiry_in_range.
 
 (* (6) Host normalisation.  extractDomain strips exactly one ":suffix" (the part after the LAST colon); consequently
    the only Host strings that resolve to a name n are n itself and n:<colon-free suffix>.  Upper-case spellings,
@@ -382,6 +405,24 @@ Theorem C19_adapter_expiry_run :
                      [RUpdated; RCreated 2]; [RRouted 1 host_a 2 2 22]].
 Proof. exact adapter_expiry_run. Qed.
 Print Assumptions C19_adapter_expiry_run.
+
+(* IsExpired treating every non-positive instant as "never expires": the record with the wrapped (negative) expiry is then not
+   expired — it would route forever and never be swept — whereas the code's IsExpired says expired. *)
+Theorem C19_nonpositive_never_expires_refuted :
+  let r := {| r_name := host_a; r_client := 1; r_target := 11; r_status := StActive; r_exp := adapter_expiry 5 max_int64 |} in
+  is_expired_nonpositive_never r 5 = false /\ is_expired r 5 = true /\ is_active r 5 = false.
+Proof. exact nonpositive_never_refuted. Qed.
+Print Assumptions C19_nonpositive_never_expires_refuted.
+
+(* ttl = MaxInt64 through the create path: the stored instant is negative; the mapping never routes, the sweep frees the name,
+   another client claims it and is routed *)
+Theorem C19_negative_expiry_run :
+  (adapter_expiry 5 max_int64 < 0)%Z /\
+  let s := drun true true true true true none_legacy none_legacy empty_store wrapped_threads
+                (repeat 0 7 ++ repeat 1 12 ++ repeat 2 5 ++ repeat 3 2)%nat in
+  map out (snd s) = [[RUpdated; RCreated 1]; [RCleaned 1; RErr EForbidden]; [RCreated 2]; [RRouted 1 host_a 2 2 22]].
+Proof. exact negative_expiry_run. Qed.
+Print Assumptions C19_negative_expiry_run.
 
 (* ---- non-vacuity ------------------------------------------------------------------------------------------------ *)
 
